@@ -259,6 +259,16 @@ def rule_pf(repo, tier):
     chk('likelihood-at-propagated-particle', ok2, 'the predicted observation entering the importance weights is not model.observation(<propagated '
         'particles>, ...): System.forward returns the observation of the state it was GIVEN, so the likelihood p(y | x_k) is evaluated at the '
         'particle before the transition, not at x^-_k = f(x_k) as the documented step 3 (and the Kalman update on linear systems) requires')
+    # the particles are propagated at the time of THIS step: model.state_transition(particles, u, t) with the caller's t, as the UKF propagates its
+    # sigma points.  Calling the model itself (System.forward) evaluates f at the model's own clock, whatever t says, and advances that clock.
+    prop_calls = [n for n in ast.walk(x) if isinstance(n, ast.Call) and isinstance(n.func, ast.Attribute) and n.func.attr == 'state_transition']
+    via_forward = [n for n in ast.walk(x) if isinstance(n, ast.Call) and dotted(n.func) == 'self.model']
+    okp = bool(prop_calls) and not via_forward and all(len(c.args) >= 3 and dotted(c.args[2]) == 't' or any(k.arg == 't' and dotted(k.value) == 't' for k in c.keywords)
+                                                       for c in prop_calls)
+    chk('propagation-at-t', okp, 'the particles are propagated by %s: the time argument t of the step does not reach f (System.forward uses the model\'s '
+        'internal clock and then advances it), so on a time-varying model the particle cloud belongs to another time step than the likelihood, and every '
+        'PF step changes model.systime; EKF and UKF call model.state_transition(., u, t)' % ('calling the model, `self.model(...)`' if via_forward else
+                                                                                              'a state_transition call without the step\'s t'))
     ok = bool(_find_calls(P, 'resample_particles')) and _mentions_noise(P, 'Q') and bool(_find_calls(P, 'compute_cov'))
     if ok:
         cc = _find_calls(P, 'compute_cov')[0]
@@ -461,10 +471,11 @@ def rules(repo, tier):
     from ..optional import rule_optional
     from ..mode import mode_rules
     from ..callsig import rule_callsig
+    from ..docsig import rule_docsig
     from ..axisdefault import rule_axisdefault
     return list(_rules_core(repo, tier)) + [rule_memo(repo, 'C13.MEMO', 'history independence: nothing computed from the contents of a tensor argument is kept '
                                                       'under the identity, address or version of that tensor, in module-level storage, or published from a generator '
                                                       'before it is complete - a later call with the same object and other contents must not be answered from it',
                                                       ['pypose.module.ekf', 'pypose.module.ukf', 'pypose.module.pf', 'pypose.module.dynamics'], floor=3),
-            rule_optional(repo, 'C13.OPT', ['pypose.module.ekf', 'pypose.module.ukf', 'pypose.module.pf', 'pypose.module.dynamics'])] + mode_rules(repo, 'C13', ['pypose.module.ekf', 'pypose.module.ukf', 'pypose.module.pf', 'pypose.module.dynamics']) + [rule_callsig(repo, 'C13.SIG', ['pypose.module.ekf', 'pypose.module.ukf', 'pypose.module.pf', 'pypose.module.dynamics'])] + [
+            rule_optional(repo, 'C13.OPT', ['pypose.module.ekf', 'pypose.module.ukf', 'pypose.module.pf', 'pypose.module.dynamics'])] + mode_rules(repo, 'C13', ['pypose.module.ekf', 'pypose.module.ukf', 'pypose.module.pf', 'pypose.module.dynamics']) + [rule_callsig(repo, 'C13.SIG', ['pypose.module.ekf', 'pypose.module.ukf', 'pypose.module.pf', 'pypose.module.dynamics']), rule_docsig(repo, 'C13.DOC', ['pypose.module.ekf', 'pypose.module.ukf', 'pypose.module.pf', 'pypose.module.dynamics'])] + [
             rule_axisdefault(repo, 'C13.AXDEF', ['pypose.module.ekf', 'pypose.module.ukf', 'pypose.module.pf'])]
